@@ -901,3 +901,43 @@ def peel_not(du, org, lab, depth=3):
         lab = ('bool', not lab[1])
         depth -= 1
     return org, lab
+
+
+def close_guard_drops(F, body):
+    """RAII release sites: `drop` terminators of locals whose type is an ADT with a Drop impl that calls Close::close (a close-on-drop
+    guard). Returns [(block, term, local, guard construction blocks)]; the descriptor a guard holds is an operand of its aggregate."""
+    guards = {}
+    for i in F.impls:
+        if not str(i.get('trait') or i.get('trait_def') or '').endswith('ops::drop::Drop'):
+            continue
+        adt = i.get('self_adt')
+        for it in i.get('items') or []:
+            b = F.bodies.get(it.get('def'))
+            if b is not None and find_calls(b, [re.compile(r'::Close>?::close$'), re.compile(r'process::Process::close_fd$')]):
+                guards[adt] = True
+    out = []
+    if not guards:
+        return out
+    for blk in range(len(body.blocks)):
+        t = body.term(blk)
+        if t['k'] != 'drop' or t['pl'].get('p'):
+            continue
+        ty = re.sub(r'<.*$', '', str(t.get('ty') or '').lstrip('&'))
+        if ty in guards:
+            l = t['pl']['l']
+            cons = [b for b, j, st in body.stmts() if st['k'] == 'assign' and not st['lhs'].get('p') and st['lhs']['l'] == l
+                    and st['rv']['k'] == 'agg' and re.sub(r'<.*$', '', str(st['rv'].get('adt') or '')) == ty]
+            out.append((blk, t, l, cons))
+    return out
+
+
+def guard_holds(body, du, guard_local, name=None, local=None):
+    """Does the close-guard local hold the descriptor named `name` (user variable name) / the local `local`?"""
+    for b, j, st in body.stmts():
+        if st['k'] == 'assign' and not st['lhs'].get('p') and st['lhs']['l'] == guard_local and st['rv']['k'] == 'agg':
+            for o in st['rv'].get('ops') or []:
+                if name is not None and (operand_name(body, du, o) or '').split('.')[-1] == name:
+                    return True
+                if local is not None and operand_local(o) == local:
+                    return True
+    return False
